@@ -300,6 +300,24 @@ func (r *Runner) nextSeq(peer int, want uint32) uint32 {
 	return r.seq[peer]
 }
 
+// NodeIDIE renders a Node ID in the form its text calls for: IPv4 address, IPv6 address or FQDN.
+func NodeIDIE(id string) *ie.IE {
+	if ip := net.ParseIP(id); ip != nil {
+		if ip.To4() != nil {
+			return ie.NewNodeID(id, "", "")
+		}
+		return ie.NewNodeID("", id, "")
+	}
+	return ie.NewNodeID("", "", id)
+}
+
+func fseidIE(seid uint64, id string) *ie.IE {
+	if ip := net.ParseIP(id); ip != nil && ip.To4() == nil {
+		return ie.NewFSEID(seid, nil, ip)
+	}
+	return ie.NewFSEID(seid, net.ParseIP(id), nil)
+}
+
 // SEID resolves the SEID an op addresses.
 func (r *Runner) SEID(op Op) (uint64, bool) {
 	if op.Sess < 0 {
@@ -319,17 +337,17 @@ func (r *Runner) Build(op Op, seq uint32) ([]byte, error) {
 	case "assoc":
 		var ies []*ie.IE
 		if !op.NoNodeID {
-			ies = append(ies, ie.NewNodeID(r.S.NodeID(op.Node), "", ""))
+			ies = append(ies, NodeIDIE(r.S.NodeID(op.Node)))
 		}
 		ies = append(ies, ie.NewRecoveryTimeStamp(time.Unix(1700000000, 0)))
 		return Marshal(message.NewAssociationSetupRequest(seq, ies...)), nil
 	case "est":
 		var ies []*ie.IE
 		if !op.NoNodeID {
-			ies = append(ies, ie.NewNodeID(r.S.NodeID(op.Node), "", ""))
+			ies = append(ies, NodeIDIE(r.S.NodeID(op.Node)))
 		}
 		if !op.NoFSEID {
-			ies = append(ies, ie.NewFSEID(op.CP, net.ParseIP(r.S.NodeID(op.Node)), nil))
+			ies = append(ies, fseidIE(op.CP, r.S.NodeID(op.Node)))
 		}
 		for _, ru := range op.Rules {
 			ies = append(ies, ru.IE())
@@ -342,7 +360,7 @@ func (r *Runner) Build(op Op, seq uint32) ([]byte, error) {
 		}
 		var ies []*ie.IE
 		if op.Takeover {
-			ies = append(ies, ie.NewNodeID(r.S.NodeID(op.Node), "", ""))
+			ies = append(ies, NodeIDIE(r.S.NodeID(op.Node)))
 		}
 		for _, ru := range op.Rules {
 			ies = append(ies, ru.IE())
@@ -655,6 +673,29 @@ func UsageDetails(m message.Message) []UsageDetail {
 			}
 		}
 		out = append(out, d)
+	}
+	return out
+}
+
+// OffWire returns the IE as a receiver sees it: marshalled into a datagram-like buffer in which another IE's header
+// (type 0xffff) follows, and parsed back.  go-pfcp does not copy IE values: payloads are sub-slices of that buffer, so a
+// decoder reading past the end of a value finds the next IE's octets there, not zeroes.
+func OffWire(i *ie.IE) *ie.IE {
+	if i == nil {
+		return nil
+	}
+	b, err := i.Marshal()
+	if err != nil {
+		panic("harness: " + err.Error())
+	}
+	buf := make([]byte, len(b)+8)
+	copy(buf, b)
+	for k := len(b); k < len(buf); k++ {
+		buf[k] = 0xff
+	}
+	out, err := ie.Parse(buf[:len(b)])
+	if err != nil {
+		panic("harness: " + err.Error())
 	}
 	return out
 }
